@@ -29,7 +29,7 @@ def run(ctx):
     thorough = ctx.tier == "thorough"
     cats = {"PKGO"}
     rep = progcheck.Replay(ctx, cats)
-    c01.nonvacuous(ctx, "PackageOnly", [("FirstLineOnly", "single", ("Exact",)), ("NoNameMatch", "single", ("Exact",)), ("TypeHidesMethods", "single", ("Exact",)), ("ExportedOnly", "single", ("Exact",)), ("SamePosOnce", "single", ("Exact",)), ("MethodKeyWithoutType", "seq2", ("Exact",)),
+    c01.nonvacuous(ctx, "PackageOnly", [("FirstLineOnly", "single", ("Exact",)), ("NoNameMatch", "single", ("Exact",)), ("TypeHidesMethods", "single", ("Exact",)), ("ExportedOnly", "single", ("Exact",)), ("SamePosOnce", "single", ("Exact",)), ("KeysNotVisited", "single", ("Exact",)), ("GroupDocLeaks", "single", ("Exact",)), ("MethodKeyWithoutType", "seq2", ("Exact",)),
                                         ("NoDedup", "seq2", ("Exact",)), ("NoUnalias", "spell", ("Exact",))], cfg)
     total = 0
     real_items = []
